@@ -236,6 +236,10 @@ func (w *World) Violate(prop, sig, detail string) {
 		// C05: "no sequence of transfers can create or destroy value through wrap-around"
 		w.Violate("C05", "value-not-conserved-in-ledger/"+sig, detail)
 	}
+	if w.Report["C03"] && prop == "C07" && (strings.HasPrefix(sig, "checkpointed-resubmission-accepted") || sig == "confirmed-transaction-not-retrievable") {
+		// C03: "... or offered again after truncation"; "the transaction index always points at the vertex that holds it"
+		w.Violate("C03", "after-truncation/"+sig, detail)
+	}
 	if !w.Report[prop] {
 		// observed by an oracle of another property than the one under check: counted, not reported
 		w.Res.Count("seen_by_other_oracle/"+prop+"/"+sig, 1)
